@@ -400,6 +400,7 @@ func (self *AofFile) ReadLockData(lock *AofLock) error {
 	aofLockData := make([]byte, dataLen+4)
 	aofLockData[0], aofLockData[1], aofLockData[2], aofLockData[3] = buf[0], buf[1], buf[2], buf[3]
 	if dataLen <= 0 {
+		self.dataSize += 4
 		lock.data = aofLockData
 		return nil
 	}
@@ -415,6 +416,7 @@ func (self *AofFile) ReadLockData(lock *AofLock) error {
 		}
 		n += nn
 	}
+	self.dataSize += dataLen + 4
 	lock.data = aofLockData
 	return nil
 }
@@ -1507,6 +1509,10 @@ func (self *Aof) LoadAofFile(filename string, lock *AofLock, expriedTime int64, 
 		if lock.AofFlag&AOF_FLAG_CONTAINS_DATA != 0 {
 			err = aofFile.ReadLockData(lock)
 			if err != nil {
+				if err == io.EOF && !self.inited {
+					_ = os.Truncate(aofFile.filename, int64(aofFile.size-64))
+					_ = os.Truncate(aofFile.filename+".dat", int64(aofFile.dataSize))
+				}
 				_ = aofFile.Close()
 				return err
 			}
